@@ -1100,50 +1100,45 @@ Proof.
   { rewrite (bind_exec _ _ _ _ _ (chain_new_exec s _ IFat mids Hmc)). cbn [c_ids].
     destruct (lenN mids * (slen s / 4) <=? lenN (minifat s)) eqn:E; [lia | reflexivity]. }
   rewrite (bind_exec _ _ _ _ _ Hgrow). rewrite bind_get.
-  destruct (set_minifat_exec s (lenN (minifat s)) v mids) as (s1 & E1 & Hsh1 & Hmf1 & Hmfr1 & Hd1);
-    [lia | exact Hmc | exact Hmg | nia |].
-  rewrite (bind_exec _ _ _ _ _ E1).
-  pose proof (same_shape_slen _ _ Hsh1) as Hsl1.
-  destruct Hsh1 as (A1 & A2 & A3 & A4 & A5 & A6 & A7 & A8 & A9).
-  (* append_mini_sector *)
+  (* append_mini_sector (first, since the MiniFAT entry is recorded after the
+     mini stream has grown) *)
   assert (Happ : exists s',
-    append_mini_sector s1 = (s', Ok tt) /\ nsect s' = nsect s1 /\ lenN (img s') = lenN (img s1) /\
-    fat s' = fat s1 /\ free s' = free s1 /\ mfree s' = mfree s1 /\ minifat s' = minifat s1 /\
-    dirs s' = updN (dirs s1) ROOT_STREAM_ID
+    append_mini_sector s = (s', Ok tt) /\ same_shape s s' /\
+    mfree s' = mfree s /\ minifat s' = minifat s /\
+    dirs s' = updN (dirs s) ROOT_STREAM_ID
                 (set_start_len r (d_start r) (d_len r + MINI_SECTOR_LEN))).
   { unfold append_mini_sector, root_entry.
-    assert (Hr1 : nthN (dirs s1) ROOT_STREAM_ID = Some r) by (rewrite Hd1; exact Hr).
-    rewrite (bind_exec _ _ _ _ _ (dir_entry_exec s1 _ r Hr1)).
+    rewrite (bind_exec _ _ _ _ _ (dir_entry_exec s _ r Hr)).
     rewrite Hrl. cbn [N.eqb negb]. rewrite bind_ret.
     destruct (d_start r =? END_OF_CHAIN) eqn:Er; [apply N.eqb_eq in Er; contradiction|].
     assert (Hns : (do c <- chain_new (d_start r) IZero;
                    do s0 <- get;
                    (if chain_len (slen s0) c <=? d_len r
                     then do _ <- extend_chain (d_start r) IZero; ret tt else ret tt);;
-                   ret (d_start r)) s1 = (s1, Ok (d_start r))).
-    { rewrite (bind_exec _ _ _ _ _ (chain_new_exec s1 _ IZero rids ltac:(rewrite A5; exact Hrc))).
-      rewrite bind_get. unfold chain_len. cbn [c_ids]. rewrite Hsl1.
+                   ret (d_start r)) s = (s, Ok (d_start r))).
+    { rewrite (bind_exec _ _ _ _ _ (chain_new_exec s _ IZero rids Hrc)).
+      rewrite bind_get. unfold chain_len. cbn [c_ids].
       destruct (slen s * lenN rids <=? d_len r) eqn:E; [lia | reflexivity]. }
     rewrite (bind_exec _ _ _ _ _ Hns).
     unfold with_dir_entry_mut.
-    rewrite (bind_exec _ _ _ _ _ (dir_entry_exec s1 _ r Hr1)).
+    rewrite (bind_exec _ _ _ _ _ (dir_entry_exec s _ r Hr)).
     set (r' := set_start_len r (d_start r) (d_len r + MINI_SECTOR_LEN)).
-    rewrite (bind_exec _ _ _ _ _ (set_dir_entry_exec s1 _ r r' Hr1)).
-    set (s2 := w_dirs s1 (updN (dirs s1) ROOT_STREAM_ID r')).
+    rewrite (bind_exec _ _ _ _ _ (set_dir_entry_exec s _ r r' Hr)).
+    set (s2 := w_dirs s (updN (dirs s) ROOT_STREAM_ID r')).
     unfold write_dir_entry. rewrite bind_get.
     rewrite (bind_exec _ _ _ _ _ (chain_new_exec s2 (dir_start s2) IDir dids
-               ltac:(cbn [s2 fat dir_start w_dirs]; rewrite A5, A8; exact Hdc))).
+               ltac:(cbn [s2 fat dir_start w_dirs]; exact Hdc))).
     destruct (chain_seek_spec s2 (mkChain IDir dids 0) (DIR_ENTRY_LEN * ROOT_STREAM_ID)) as [Hseek _].
     rewrite (bind_exec _ _ _ _ _ (Hseek ltac:(change (DIR_ENTRY_LEN * ROOT_STREAM_ID) with 0; lia))).
     cbn [c_init c_ids].
     assert (Hr2 : nthN (dirs s2) ROOT_STREAM_ID = Some r').
-    { cbn [s2 dirs w_dirs]. apply nthN_updN_same. eapply nthN_Some_lt. exact Hr1. }
+    { cbn [s2 dirs w_dirs]. apply nthN_updN_same. eapply nthN_Some_lt. exact Hr. }
     rewrite (bind_exec _ _ _ _ _ (dir_entry_exec s2 _ r' Hr2)).
     assert (Hnm : d_name r' = d_name r) by reflexivity. rewrite Hnm.
     destruct (MAX_NAME_LEN <? lenN (utf16 (d_name r))) eqn:En; [lia|]. rewrite bind_ret.
     assert (Hsh2 : same_shape s s2).
     { unfold same_shape. cbn [s2 nsect ver img fat free difat dir_start minifat_start w_dirs].
-      repeat split; assumption. }
+      repeat split. }
     destruct (chain_write_shape s2 (mkChain IDir dids (DIR_ENTRY_LEN * ROOT_STREAM_ID)) (dirent_encode r'))
       as (s3 & E3 & Hsh3 & Hmf3 & Hmfr3 & Hd3).
     - eapply good_chain_shape; [exact Hdg | exact Hsh2].
@@ -1153,17 +1148,25 @@ Proof.
       destruct dids as [|d0 dt]; [contradiction|]. cbn [lenN].
       destruct (slen_cases s) as [Hs|Hs]; rewrite Hs; lia.
     - rewrite (bind_exec _ _ _ _ _ E3).
-      destruct Hsh3 as (B1 & B2 & B3 & B4 & B5 & B6 & B7 & B8 & B9).
       exists s3. split; [reflexivity|].
-      split; [exact B1|]. split; [exact B3|]. split; [exact B5|]. split; [exact B6|].
+      split; [exact (same_shape_trans _ _ _ Hsh2 Hsh3)|].
       split; [exact Hmfr3|]. split; [exact Hmf3 | exact Hd3]. }
-  destruct Happ as (s' & E' & C1 & C2 & C3 & C4 & C5 & C6 & C7).
-  rewrite (bind_exec _ _ _ _ _ E').
-  exists s'. split; [reflexivity|].
-  split; [congruence|]. split; [congruence|]. split; [congruence|]. split; [congruence|].
-  split; [congruence|]. split.
-  - rewrite C6, Hmf1. unfold fat_set. rewrite N.eqb_refl. reflexivity.
-  - rewrite C7, Hd1. reflexivity.
+  destruct Happ as (s1 & E1 & Hsh1 & C5 & C6 & C7).
+  rewrite (bind_exec _ _ _ _ _ E1).
+  pose proof (same_shape_slen _ _ Hsh1) as Hsl1.
+  pose proof Hsh1 as (A1 & A2 & A3 & A4 & A5 & A6 & A7 & A8 & A9).
+  destruct (set_minifat_exec s1 (lenN (minifat s)) v mids) as (s' & E' & Hsh' & Hmf' & Hmfr' & Hd').
+  - rewrite C6. lia.
+  - rewrite A5, A9. exact Hmc.
+  - eapply good_chain_shape; [exact Hmg | exact Hsh1].
+  - rewrite Hsl1. nia.
+  - rewrite (bind_exec _ _ _ _ _ E').
+    destruct Hsh' as (B1 & B2 & B3 & B4 & B5 & B6 & B7 & B8 & B9).
+    exists s'. split; [reflexivity|].
+    split; [congruence|]. split; [congruence|]. split; [congruence|]. split; [congruence|].
+    split; [congruence|]. split.
+    + rewrite Hmf', C6. unfold fat_set. rewrite N.eqb_refl. reflexivity.
+    + rewrite Hd', C7. reflexivity.
 Qed.
 
 (* ------------------------------------------------------------------ *)
